@@ -1,6 +1,193 @@
 import PdeVerif.Json
-namespace PdeVerif.Drv.C13
-open Lean PdeVerif
+import PdeVerif.Model.Noise
+/-
+Driver of the C13 model: evaluates `PdeVerif.Noise.Sys.run` (the definition the theorems of
+`Props/C13.lean` are about) at `Float` (IEEE replay, same operation order as the Python source)
+and at `Rat` (exact; the harness only sends cases whose square roots are rational).
 
-def handlers : List (String × Handler) := []
+request `c13.run`:
+  {"mode":"F"|"Q", "solver":"euler|milstein|implicit", "interp":"ito|stratonovich|anti-ito",
+   "dt":x, "steps":m, "u0":[..], "xi":[[..],..],
+   "grid":{"cls":..,"lo":[..],"hi":[..],"n":[..]}, "pi":x     -- volumes from the grid model, or
+   "vol":[..]                                                   -- volumes given directly
+   "rate":{"kind":"local","a":[..],"b":[..],"c":[..]} | {"kind":"recorded","rates":[[..],..]},
+   "var":{"kind":"field","noise":[..],"nshape":[..],"dshape":[..],"ncomp":k} | {"kind":"collection","noise":[..],"ncomps":[..]}
+        | {"kind":"quad","g0":[..],"g2":[..]},
+   "real":null|[..],            -- second noise interface: realization = r[comp] * u
+   "maxiter":k, "maxerr":x}
+answer: {"final":[..]|null, "rest":k, "vol":[..], "vars":[..]}
+request `c13.layout`: {"kind":"field"|"collection", "noise":[..], "ncomp":k | "ncomps":[..]} -> [..] (Rat)
+-/
+namespace PdeVerif.Drv.C13
+open Lean PdeVerif PdeVerif.Grids PdeVerif.Noise
+
+/-- exact square root of a rational, `-(10^30)` when it is irrational (fail-safe: the final
+state is then garbage and the comparison with the real code fails loudly) -/
+def ratSqrt (x : Rat) : Rat :=
+  if x < 0 then -(10 ^ 30 : Nat) else
+  let n := x.num.toNat
+  let d := x.den
+  let rn := Nat.sqrt n
+  let rd := Nat.sqrt d
+  if rn * rn = n ∧ rd * rd = d then mkRat rn rd else -(10 ^ 30 : Nat)
+
+def parseCls (s : String) : Except String GridClass :=
+  match s with
+  | "unit" => pure .unit
+  | "cartesian" => pure .cartesian
+  | "polar" => pure .polar
+  | "spherical" => pure .spherical
+  | "cylindrical" => pure .cylindrical
+  | _ => throw s!"unknown grid class {s}"
+
+def parseSolver (s : String) : Except String Solver :=
+  match s with
+  | "euler" => pure .euler
+  | "milstein" => pure .milstein
+  | "implicit" => pure .implicit
+  | _ => throw s!"unknown solver {s}"
+
+def parseInterp (s : String) : Except String Interp :=
+  match s with
+  | "ito" | "itô" => pure .ito
+  | "stratonovich" => pure .stratonovich
+  | "anti-ito" | "anti-itô" | "hänggi-klimontovich" | "hanggi-klimontovich" => pure .antiIto
+  | _ => throw s!"unknown interpretation {s}"
+
+section
+variable {K : Type} [Add K] [Sub K] [Mul K] [Div K] [Neg K] [NatCast K] [IntCast K]
+variable [LT K] [DecidableLT K]
+
+def fldK (getK : Json → Except String K) (j : Json) (k : String) : Except String K := do
+  getK (← fld j k)
+def fldKs (getK : Json → Except String K) (j : Json) (k : String) : Except String (Array K) := do
+  pure (← getL getK (← fld j k)).toArray
+
+def getGrid (getK : Json → Except String K) (g : Json) : Except String (Grid K) := do
+  let cls ← parseCls (← fldS g "cls")
+  let lo ← fldKs getK g "lo"
+  let hi ← fldKs getK g "hi"
+  let n ← fldNs g "n"
+  if lo.size ≠ hi.size ∨ lo.size ≠ n.length then throw "grid: lo/hi/n differ in length"
+  let axes := (lo.toList.zip (hi.toList.zip n)).map fun (l, h, k) => (⟨l, h, k, false⟩ : Axis K)
+  pure ⟨cls, axes⟩
+
+def putKs (putK : K → Json) (a : Array K) : Json := Json.arr (a.map putK)
+
+def handle (getK : Json → Except String K) (putK : K → Json) (sqrt : K → K) (j : Json) :
+    Except String Json := do
+  let sol ← parseSolver (← fldS j "solver")
+  let interp ← parseInterp (← fldS j "interp")
+  let dt ← fldK getK j "dt"
+  let steps ← fldN j "steps"
+  let u0 ← fldKs getK j "u0"
+  let xi : List (Array K) ← (do
+    let a ← (← fld j "xi").getArr?
+    a.toList.mapM fun x => do pure (← getL getK x).toArray)
+  let vol : Array K ← (match fldOpt j "vol" with
+    | some (.arr a) => do pure (← a.toList.mapM getK).toArray
+    | _ => do
+      let g ← getGrid getK (← fld j "grid")
+      let pi ← fldK getK j "pi"
+      pure (cellVolumes pi g))
+  let ncell := vol.size
+  let n := u0.size
+  if ncell = 0 ∨ n % ncell ≠ 0 then throw s!"state size {n} is not a multiple of the cell count {ncell}"
+  let ncomp := n / ncell
+  for x in xi do
+    if x.size ≠ n then throw s!"normal array of size {x.size}, state has {n}"
+  -- rate
+  let rj ← fld j "rate"
+  let rate : Nat → Array K → Array K ← (do
+    match (← fldS rj "kind") with
+    | "local" =>
+      let a ← fldKs getK rj "a"
+      let b ← fldKs getK rj "b"
+      let c ← fldKs getK rj "c"
+      if a.size ≠ ncomp ∨ b.size ≠ ncomp ∨ c.size ≠ ncomp then throw "rate coefficients: one per component"
+      pure (fun _ u => localRate n ncell a b c u)
+    | "recorded" =>
+      let rs : Array (Array K) ← (do
+        let a ← (← fld rj "rates").getArr?
+        a.mapM fun x => do pure (← getL getK x).toArray)
+      pure (fun k _ => rs.getD k #[])
+    | s => throw s!"unknown rate kind {s}")
+  -- variance
+  let vj ← fld j "var"
+  let vkind ← fldS vj "kind"
+  let (var, varDiff, vars) ← (do
+    match vkind with
+    | "field" =>
+      let noise ← fldKs getK vj "noise"
+      let k ← fldN vj "ncomp"
+      if k ≠ ncomp then throw "var: ncomp differs from the state"
+      let nshape ← fldNs vj "nshape"
+      let dshape ← fldNs vj "dshape"
+      if dshape.foldl (· * ·) 1 ≠ ncomp then throw "var: dshape differs from the state"
+      -- `np.broadcast_to(noise, data_shape)`: modelled for noise shapes that are a suffix of data_shape
+      if noise.size ≠ nshape.foldl (· * ·) 1 ∨ noise.size = 0 ∨ ¬ (nshape.isSuffixOf dshape) then
+        throw "broadcast-error"
+      let pc := fieldVars noise.toList ncomp
+      let v := constVar ncell pc
+      let z : Array K := tab n fun _ => Noise.zero
+      pure ((fun (_ : Array K) => v), (fun (_ : Array K) => z), pc.toArray)
+    | "collection" =>
+      let noise ← fldKs getK vj "noise"
+      let ncomps ← fldNs vj "ncomps"
+      if ncomps.foldl (· + ·) 0 ≠ ncomp then throw "var: ncomps differ from the state"
+      if noise.size ≠ 1 ∧ noise.size ≠ ncomps.length then throw "broadcast-error"
+      let pc := collVars noise.toList ncomps
+      let v := constVar ncell pc
+      let z : Array K := tab n fun _ => Noise.zero
+      pure ((fun (_ : Array K) => v), (fun (_ : Array K) => z), pc.toArray)
+    | "quad" =>
+      let g0 ← fldKs getK vj "g0"
+      let g2 ← fldKs getK vj "g2"
+      if g0.size ≠ ncomp ∨ g2.size ≠ ncomp then throw "var coefficients: one per component"
+      pure (quadVar n ncell g0 g2, quadVarDiff n ncell g2, g0)
+    | s => throw s!"unknown variance kind {s}")
+  let real : Option (Array K → Array K) ← (match fldOpt j "real" with
+    | some (.arr a) => do
+      let r := (← a.toList.mapM getK).toArray
+      if r.size ≠ ncomp then throw "real: one coefficient per component"
+      pure (some fun u => tab n fun i => get r (i / ncell) * get u i)
+    | _ => pure none)
+  let maxiter := (fldN j "maxiter").toOption.getD 100
+  let maxerr ← (match fldOpt j "maxerr" with
+    | some v => getK v
+    | none => pure (((1:Nat) : K) / ((10000:Nat) : K)))
+  let S : Sys K := {
+    n := n, ncell := ncell, dt := dt, s := sqrt dt, interp := interp, inv := invCell vol,
+    rate := rate, var := var, varDiff := varDiff, real := real, sqrt := sqrt,
+    maxiter := maxiter, maxerr2 := maxerr * maxerr }
+  let res := S.run sol 0 steps u0 xi
+  let (fin, rest) := match res with
+    | none => (Json.null, 0)
+    | some (u, r) => (putKs putK u, r.length)
+  pure (Json.mkObj [("final", fin), ("rest", toJson rest), ("vol", putKs putK vol),
+    ("vars", putKs putK vars)])
+
+end
+
+def run (j : Json) : Except String Json := do
+  match (← fldS j "mode") with
+  | "F" => handle (K := Float) getF jF Float.sqrt j
+  | "Q" => handle (K := Rat) getQ jQ ratSqrt j
+  | m => throw s!"unknown mode {m}"
+
+/-- the variance layout alone, exact -/
+def layout (j : Json) : Except String Json := do
+  let noise ← fldQs j "noise"
+  match (← fldS j "kind") with
+  | "field" =>
+    let k ← fldN j "ncomp"
+    if noise.length = 0 ∨ k % noise.length ≠ 0 then throw "broadcast-error"
+    pure (jQs (fieldVars noise k))
+  | "collection" =>
+    let ncomps ← fldNs j "ncomps"
+    if noise.length ≠ 1 ∧ noise.length ≠ ncomps.length then throw "broadcast-error"
+    pure (jQs (collVars noise ncomps))
+  | s => throw s!"unknown layout kind {s}"
+
+def handlers : List (String × Handler) := [("c13.run", run), ("c13.layout", layout)]
 end PdeVerif.Drv.C13
